@@ -27,6 +27,7 @@ type c19Mon struct {
 
 func attachC19(m *Mon, every int) {
 	c := &c19Mon{m: m, every: every}
+	m.c19 = c
 	m.extra = append(m.extra, func(sc *StepCtx) {
 		if sc.Idx >= 0 && (sc.Idx+1)%everyFor(sc, c.every, 3) == 0 {
 			c.scenario(sc)
@@ -69,6 +70,12 @@ func (c *c19Mon) scenario(sc *StepCtx) {
 		}
 	}
 	sit := fmt.Sprintf("pend%d/earn%d/ctx%d/wa%d/odd%d/bind%d", minInt(nPend, 3), minInt(nEarn, 3), minInt(nCtx, 3), minInt(nWa, 2), minInt(odd, 2), minInt(len(s0.Bindings), 4))
+
+	// 0. plain export, without the zero-height preparation (what `export` at a height does): the
+	// genesis is either refused by validation (the unchanged tree refuses every context that is
+	// not paused with a completed batch) or, if it is accepted, importing it must give a store
+	// in which the standing invariants of the queues, indexes and records hold
+	c.plainExport(sc)
 
 	// 1. zero-height preparation
 	if pan, site := guard(func() { service.PrepForZeroHeightGenesis(ctx, k) }); pan != "" {
@@ -259,6 +266,45 @@ func (c *c19Mon) scenario(sc *StepCtx) {
 		if s3.Withdraw[o] != a {
 			m.fail(sc, "C19", "import-complete", "withdraw-address", "withdrawal address of %.8s is %.8s after import, was %.8s", o, s3.Withdraw[o], a)
 		}
+	}
+}
+
+func (c *c19Mon) plainExport(sc *StepCtx) {
+	m := c.m
+	w := sc.run.w
+	ctx, _ := w.curCtx().CacheContext()
+	var gs *types.GenesisState
+	if pan, _ := guard(func() { gs = service.ExportGenesis(ctx, w.a.k) }); pan != "" {
+		return // judged by the main scenario
+	}
+	accepted := types.ValidateGenesis(*gs) == nil
+	nonPaused := 0
+	for _, rc := range sc.Post.Contexts {
+		if rc.State != types.PAUSED {
+			nonPaused++
+		}
+	}
+	m.hit("C19", "plain-export", fmt.Sprintf("accepted%v/nonpaused%d", accepted, minInt(nonPaused, 2)))
+	if !accepted {
+		return
+	}
+	if c.spare == nil {
+		c.spare = NewApp()
+	}
+	w2 := &World{a: c.spare, height: w.height, now: w.now, tracked: map[string]string{}, actors: map[string]sdk.AccAddress{}}
+	ctx2, _ := c.spare.baseCtx.CacheContext()
+	w2.ctx = ctx2
+	if pan, _ := guard(func() { service.InitGenesis(ctx2, c.spare.k, *gs) }); pan != "" {
+		return // an import that validation accepted and InitGenesis refuses: judged by the main scenario's rules
+	}
+	s := w2.SnapOf(ctx2.WithBlockHeight(w.height))
+	sub := &Mon{stats: NewStats(), run: sc.run, seenSig: map[string]bool{}, broken: map[string]bool{}}
+	ssc := &StepCtx{Idx: sc.Idx, Step: &Step{Kind: "import", Desc: "import of a plain (unprepared) export that validation accepted"}, Res: sc.Res, Pre: s, Post: s, run: sc.run}
+	sub.stateC11(ssc, s)
+	sub.stateC15(ssc, s)
+	sub.stateC16(ssc, s)
+	for _, v := range sub.stats.Violations {
+		m.fail(sc, v.Prop, v.Rule, "plain-export-import", "a genesis exported without preparation passes validation, but the imported state breaks an invariant: %s", v.Msg)
 	}
 }
 
